@@ -92,6 +92,8 @@ impl<'a> BindContext<'a> {
         load_compile_macros(&mut ctx);
         load_default_funcs(&mut ctx);
         load_default_types(&mut ctx);
+        // now() reads the wall clock and has to be evaluated on every execution
+        ctx.funcs.remove("now");
         ctx
     }
 
